@@ -137,7 +137,21 @@ def check_refusal(rec, cfg, state, n, route="ctor"):
             except Exception:
                 rec.count("refusal_route_start_not_available")
                 return  # the start object is the business of the encode / decode clauses
-            pdu.segment_metadata = U.L.SegmentMetadata(U.L.RecordContinuationState(state), md_pattern(n))
+            try:
+                pdu.segment_metadata = U.L.SegmentMetadata(U.L.RecordContinuationState(state), md_pattern(n))
+            except unit.documented as e:
+                # the assignment was refused; the caller catches that and goes on with the PDU: whatever pack() hands out afterwards
+                # must not carry the refused metadata (either it refuses too, or the PDU is what it was before the assignment)
+                rec.outcome(f"md>{63}:{route}:{type(e).__name__}")
+                before = unit.ref({"cfg": cfg, "params": base})
+                try:
+                    after = bytes(pdu.pack())
+                except unit.documented:
+                    rec.outcome(f"md>{63}:{route}:pack-after-refused-assignment-refuses")
+                    return
+                if after != before:
+                    rec.violation(f"C07.refuse/{sub}/refused-metadata-packed-afterwards", case, after[:64], before[:64])
+                return
         raw = bytes(pdu.pack())
     except unit.documented as e:
         rec.outcome(f"md>{63}:{route}:{type(e).__name__}")
